@@ -42,7 +42,7 @@ META = {
     "rule": "3-12 packets per run: payload 0-70 bytes (0/1/2 and max over-represented), all four data PIDs, gap 0-6 before the next offer; "
             "tx_ready always / every n / literal list, plus targeted stalls of 1-6 cycles on chosen byte positions",
 }
-TIERS = {"quick": {"runs": 10000, "wall": 70}, "thorough": {"runs": 150000, "wall": 900}}
+TIERS = {"quick": {"runs": 20000, "wall": 70}, "thorough": {"runs": 150000, "wall": 900}}
 
 PID_NAMES = ["DATA0", "DATA1", "DATA2", "MDATA"]
 
